@@ -196,7 +196,7 @@ fn equivalent(got: &Circ, reference_: &Ref, n: usize, any_perm: bool, float_tol:
 
 fn check_lib<Gr: GraphLike>(family: &'static str, index: u64, backend: &str, c: &Circ, rf: &Ref) {
     let cx = ctx();
-    let qc = to_quizx(c);
+    let qc = crate::gen::circuit::to_quizx_layout(c);
     for s in STRATS {
         for x in EXTRS {
             if x == "flow" && s != "flow_simp" {
